@@ -32,8 +32,9 @@ CHECKS = {
         'handler and the control paths of that handler, and every raise statement of the nine entry points are regenerated from the '
         'source into a Lean table on every run. Theorems over that table (all sites, all solver states, all failure sequences): no '
         'failure escapes, start-up failures give the documented ValueError, later ones status unknown or a recovery (cpl), never '
-        'optimal; every raise is TypeError/ValueError with all names bound. Exhaustive fault injection over all KKT calls of the '
-        'fault-free runs ties the table to the real solvers (site found through the live frame, outcome compared).',
+        'optimal; every raise is TypeError/ValueError with all names bound. Every return inside the main loops is regenerated as well (tools/translate/py2lean_exits.py): '
+        'each failure exit reports unknown and leaves with the rescalings, symmetrisation walks, slack definitions and fields of the MAXITERS exit of the same solver. Exhaustive fault injection over all KKT calls of the '
+        'fault-free runs ties the table to the real solvers (site found through the live frame, outcome compared; slacks, gap and residuals of every unknown result recomputed from the returned vectors).',
    design_ref='DESIGN.md 5 C10',
    note='Trusted: Lean kernel, translator py2lean.gen_faults (AST walk; handler path enumeration) and Model/Faults.lean semantics, '
         'validated by the injection runs; the numerical state after a cpl restore is not modelled; backtracking into the domain is '
@@ -63,7 +64,8 @@ CHECKS = {
         'default KKT solver) and requires the planted class, agreement of the objectives across paths and the planted weak-duality bounds; an '
         'unknown on a solvable instance is accepted only with recomputed residuals and gap <= 1e-4.',
    design_ref='DESIGN.md 5 C05',
-   note='Trusted: Lean kernel, planted generator and the rational checker Model/CertCheck.lean, numeric comparison tolerances. Termination '
+   note='Trusted: Lean kernel, planted generator and the rational checker Model/CertCheck.lean, numeric comparison tolerances, translator py2lean_exits.py '
+        '(every conelp exit that hands out the iterates rescales x, y, s, z by 1/tau: theorems over the regenerated table; unknown results are judged on residuals recomputed from the returned vectors). Termination '
         'within the iteration budget is observed, not proved. Known findings: exceptions escaping from coneqp/cpl on infeasible or unbounded '
         'inputs, the chol2 rank-deficient-G defect (shared with C06), cpl stalling on some plain LPs.',
    technique='Lean 4 proof (class of a planted instance from its witnesses) + planted-instance runs judged by a Lean rational checker'),
@@ -84,7 +86,8 @@ CHECKS = {
    text='The statistics block, stopping test, return dictionaries and in-place rescalings of conelp are regenerated from coneprog.py into '
         'Lean on every run (every vector statement, over abstract vector spaces and an ordered field). Theorems re-checked against it: the '
         'optimal return implies the documented residual bounds and gap criterion for the *returned* (1/tau-rescaled) vectors; objective '
-        'fields equal c.x and -h.z-b.y of the returned vectors; result-map and epilogue tables; maxiters exit. A Lean rational checker '
+        'fields equal c.x and -h.z-b.y of the returned vectors; result-map and epilogue tables; maxiters exit; the starting-point shortcut; every block that moves a '
+        'solver-completed starting point into the cone shifts by 1 + max_step of the vector it updates (regenerated by py2lean_exits.py). A Lean rational checker '
         '(cone membership proved sound: PSD by LDL witness, SOC, norms through squares) judges what conelp/lp/socp/sdp really return on '
         'planted problems in all listed presentations, on the caller data, exactly.',
    design_ref='DESIGN.md 5 C01',
@@ -130,10 +133,11 @@ CHECKS = {
         'values in the unreferenced triangle; complex data through the real embedding), inverses, least squares, orthonormality and '
         'reconstruction for QR/LQ, eigenvalue routines, two SVD drivers and Schur; Python-side: driver == factor+solve, A unmodified without '
         'ipiv, sorted outputs, ArithmeticError on exactly singular / non-positive-definite input, TypeError/ValueError on inconsistent sizes and types; '
-        'every wrapper called on plain matrices and on the same data embedded in larger buffers (offset / leading-dimension keywords) must give the same numbers.',
+        'every wrapper called on plain matrices and on the same data embedded in larger buffers (offset / leading-dimension keywords) must give the same numbers. '
+        'Over the argument checks regenerated from lapack.c (cwrap2lean.py): orgqr / ungqr / orglq / unglq skip the LAPACK call only for an empty result (theorems C18_*_quick_return).',
    design_ref='DESIGN.md 11.6',
    note='Level partial: the wrappers are judged through their results on generated inputs (orders 0..5); no model of the wrapper code exists '
-        '(the argument-prefix translator covers blas.c only). Trusted: Lean kernel, the harness (input construction, band-storage conversions), '
+        'beyond the regenerated argument checks and early returns (Gen/LapackWrap.lean). Trusted: Lean kernel, the harness (input construction, band-storage conversions), '
         'the fixed relative tolerance 1e-9.',
    technique='Lean 4 proof of the defining-equation algebra + exact rational result checker (Lean) applied to real LAPACK wrapper outputs'),
  'C19': dict(
